@@ -632,13 +632,21 @@ CHECKS["C06"].update({
              "non-empty fragment names, SchemaOutputs; the same for the un-memoised search with the static rank check (Props/C06_head.lean). The clauses "
              "state what the CODE implements; where that is not the specification's clause the difference is a machine-checked refutation "
              "(values_spec_clause_refuted = V8, overlap_full_statement_refuted, V3/V4 order dependence of the unfixed collector). INVARIANCE under the six "
-             "transformations of the statement, rule by rule on the model: perm_definitions_all25_partial, tr_invariance_25_partial (perm_selections, "
-             "perm_arguments, alpha_fragments), alpha_aliases_all25_partial (24 alias-blind rules state by state on the whole chain + "
-             "SingleFieldSubscriptions), alpha_variables_all25_partial (20 variable-blind rules state by state + the variable rules through their clauses) "
-             "cover 25 of the 26 rules; for OverlappingFieldsCanBeMerged perm_definitions_overlap_memo (SameDoc.clause: the clause of 5.3.2 reads a "
-             "document only through selection sets, typed nodes and the fragment table) and, where a *_all26 theorem is listed among the obligations below, "
-             "the remaining transformations by the same route (the clause of 5.3.2 transported along a simulation of documents + "
-             "rule_overlapping_fields_memo_iff). Structural theorems for EVERY rule list: typeinfo_balanced / selections_balanced / definitions_balanced, "
+             "transformations of the statement: rule by rule for ALL 26 rules (SilentM: the overlap rule is the memoised one /repo runs) "
+             "perm_definitions_all26, tr_invariance_all26 with perm_selections_all26 / perm_arguments_all26 / alpha_fragments_all26, "
+             "alpha_aliases_all26, alpha_variables_all26 (Props/C06_inv11..13.lean) - the 25 other rules by the *_all25_partial theorems, the "
+             "overlap rule by transporting the clause of 5.3.2 along a SIMULATION of documents (Lemmas/ValidateOverlapSim*.lean: OvSim, "
+             "OvSim.clause_iff; instances for selection / argument order + fragment renaming, aliases, variables) + "
+             "rule_overlapping_fields_memo_iff; and for the VERDICT of the chain (every rule silent) six_transformations_verdict_memo "
+             "(Props/C06_inv14.lean: tr_ / alpha_aliases_ / alpha_variables_ / perm_definitions_verdict_invariance_memo), whose only "
+             "hypotheses are DocOkM, SchemaOutputs, injectivity of the renamings and 'no empty name produced' - unique argument / fragment / "
+             "variable names, operation keys and ParentsAgree are clauses of other rules of the same chain. Necessity witnesses: "
+             "perm_arguments_overlap_needs_unique_argument_names, alpha_variables_overlap_needs_injectivity, "
+             "alpha_aliases_overlap_needs_injectivity. OverlapSide is characterised exactly (overlapSide_iff_tableAcyclic), which puts duplicate "
+             "fragment names inside the memo-neutrality theorem (overlap_memo_neutral_tableAcyclic). Why noMetaSubsB is a real exclusion is "
+             "machine-checked (Props/C06_overlap_meta.lean: meta_sibling_hides_report, parentsAgree_false_below_meta, "
+             "memo_iff_needs_parentsAgree; reproduced on the real validator, corpus meta_subselections). "
+             "Structural theorems for EVERY rule list: typeinfo_balanced / selections_balanced / definitions_balanced, "
              "skip_reports (a rule that skips has just added an error), rule_single_field_subscriptions_declarative_iff (CollectFields restricted to keys = "
              "reachable response keys). TIED by correspondence (model chain vs validate_ast: verdict on every document; set of reporting rules on documents "
              "with at most one injected violation; every rule standalone; memoised vs un-memoised model cross-check per document; schema and rule-instance "
@@ -647,10 +655,11 @@ CHECKS["C06"].update({
              "deterministic block memo_mode_table (memo key = triple)."),
     "note": ("Trusted: Lean kernel; generators / injectors (validity by construction, one labelled violation each); is_subtype / types_overlap hand-modelled "
              "(re-extracted where the translator applies). ONLY EXERCISED (no theorem): inside the full 26-rule chain the overlap rule loses the selection "
-             "sets below a node another rule skipped (modelled by runM, compared with the real validator); invariance of the overlap rule under the "
-             "transformations for which no *_all26 theorem is listed (metamorphic oracle); the un-memoised half of OverlapMemoNeutralStatement outside "
-             "OverlapSide (cross-checked per document, memo:crosscheck); documents with __schema { .. } / __type { .. } sub-selections are outside the "
-             "clause-level statements (ParentsAgree is false there: counted, compared on the verdict only); fragment variable definitions (parse option) "
+             "sets below a node another rule skipped (modelled by runM, compared with the real validator); that the verdict of the full chain is the conjunction of "
+             "the rules run alone (chain-does-not-decompose on the real code); the un-memoised half of OverlapMemoNeutralStatement on documents whose "
+             "fragment table has a cycle of bare spreads (OverlapMemoNeutralOpenRegion; cross-checked per document, memo:crosscheck); documents with __schema { .. } / __type { .. } sub-selections are outside the "
+             "clause-level statements (ParentsAgree is false there and the rule's equivalence fails without it: memo_iff_needs_parentsAgree; counted, "
+             "compared with the real validator; MetaExtensionStatement is open); fragment variable definitions (parse option) "
              "are corpus-tested against the real code only (model-does-not-cover:parse-options). Known finding V8 (list literal at a non-list position "
              "accepted: the code's clause is proved, the specification's clause refuted). Repaired on the way: V3, V4, V7, V9, V10, V11, H3, H5, H6, "
              "enter_list_value (C06/1, C06/2), overlap memo (fix 7e75356)."),
